@@ -94,7 +94,8 @@ def history(draw):
 
 
 def strategy(tier):
-    return st.one_of(*([related_pair()] * 9 + [history()]))
+    # a quarter of the cases are histories (real builds), the rest predicate pairs
+    return st.integers(0, 5).flatmap(lambda n: history() if n in (2, 4) else related_pair())
 
 
 def must(path, root):
